@@ -675,7 +675,7 @@ func TestC07(t *testing.T) {
 }
 
 func TestC08(t *testing.T) {
-	rec := ev.New("C08", ruleValues+"valid encodings are mutated (truncate at an offset, overwrite a byte with {00,7f,80,ff,b^1,b^2,b^4,b^80}, inflate a length prefix to {remaining+1, 2^31-1, 2^31, 2^32, 2^40, 2^63, 2^64-1}, change a key's wire type incl. groups at the top level or inside a nested payload / map entry, insert a field with an illegal key (number 0, number >= 2^29, wire type 6 / 7) and a well-formed payload at a field boundary, append garbage, a varint value with bits beyond 32 set, hostile length for an existing number, plain random bytes); messages nested 3000 levels deep through every self-recursive field; the quick tier also truncates at every offset and overwrites every byte of the sweep encodings of each type; oracle: returns (no panic), bytes allocated <= 4 KiB + len*(576+2*S), and when both decoders accept the messages are equal; non-trivial = the input is not a valid canonical encoding; distinct by (type, bytes)")
+	rec := ev.New("C08", ruleValues+"valid encodings are mutated (truncate at an offset, overwrite a byte with {00,7f,80,ff,b^1,b^2,b^4,b^80}, inflate a length prefix to {remaining+1, 2^31-1, 2^31, 2^32, 2^40, 2^63, 2^64-1}, change a key's wire type incl. groups at the top level or inside a nested payload / map entry, insert a field with an illegal key (number 0, number >= 2^29, wire type 6 / 7) and a well-formed payload at a field boundary, append garbage, a varint value with bits beyond 32 set, hostile length for an existing number, plain random bytes); messages nested 3000 levels deep through every self-recursive field; the quick tier also truncates at every offset and overwrites every byte of the sweep encodings of each type; 1 in 4 inputs (and the systematic truncations) are decoded into a receiver that already holds another value; oracle: returns (no panic), bytes allocated <= 4 KiB + len*(576+2*S), and when both decoders accept the messages are equal; non-trivial = the input is not a valid canonical encoding; distinct by (type, bytes)")
 	defer rec.Write()
 	useRecorder(rec)
 	defer func() { t.Log(rec.Summary()); fmt.Print(rec.SurveyReport()) }()
@@ -714,6 +714,10 @@ func TestC08(t *testing.T) {
 			}
 			for cut := 0; cut < len(b); cut++ {
 				one(t, &BCase{Type: mt.Key(), Bytes: b[:cut], Note: "truncate-all"}, "systematic/truncate")
+				if cut < 3 || cut%4 == 0 {
+					// ... and into a receiver that already holds the complete value (what it held must not show through)
+					one(t, &BCase{Type: mt.Key(), Bytes: b[:cut], Pre: b, Note: "truncate-all-into-used-receiver"}, "systematic/truncate-into-used-receiver")
+				}
 			}
 			for pos := 0; pos < len(b); pos++ {
 				for _, nb := range []byte{0x00, 0x7f, 0x80, 0xff, b[pos] ^ 1, b[pos] ^ 2, b[pos] ^ 0x80} {
@@ -735,6 +739,10 @@ func TestC08(t *testing.T) {
 			note += "+" + n2
 		}
 		c := &BCase{Type: mt.Key(), Bytes: b, Note: note}
+		if rapid.IntRange(0, 3).Draw(rt, "usedreceiver") == 0 {
+			_, c.Pre = canon(genDyn(rt, mt.Desc, 2, genOpts{runtime: mt.Info.Runtime, requiredProb: 9, maxMap: 2}))
+			rec.Class("receiver-holds-another-value")
+		}
 		rec.Sample(mt.Info.Variant+"/"+note, c.sample())
 		one(rt, c, "mutation/"+note)
 	})
